@@ -89,6 +89,8 @@ type Task struct {
 	steps      int
 	acqInOp    int // lock acquisitions since the harness last called OpBegin
 	inOp       bool
+	spin       int // consecutive runtime.Gosched calls with no other scheduling point in between
+	inGosched  bool
 	panicVal   any
 	panicStack string
 }
@@ -144,20 +146,22 @@ type Config struct {
 
 // Stats are per-run counters.
 type Stats struct {
-	Steps        int
-	Switches     int // decisions that released a different task than the previous one while that one was still eligible
-	Stalls       int
-	StallsTimer  int // stalls that hit a task sitting at a timer wake-up (timer_late)
-	Jumps        int
-	IdleWaits    int
-	Tasks        int
-	TimerTasks   int
-	ReaderRefuse int // probe: a reader was refused because a writer was pending
-	SameLockWait int // probe: two tasks parked on the same object
-	MidOpSwitch  int // probe: a task was preempted between two lock acquisitions of one public call
-	AtomicOps    int // scheduling points taken before sync/atomic operations of the code under test
-	Sig          uint64
-	SimNanos     int64
+	Steps          int
+	Switches       int // decisions that released a different task than the previous one while that one was still eligible
+	Stalls         int
+	StallsTimer    int // stalls that hit a task sitting at a timer wake-up (timer_late)
+	Jumps          int
+	IdleWaits      int
+	Tasks          int
+	TimerTasks     int
+	ReaderRefuse   int // probe: a reader was refused because a writer was pending
+	SameLockWait   int // probe: two tasks parked on the same object
+	MidOpSwitch    int // probe: a task was preempted between two lock acquisitions of one public call
+	AtomicOps      int // scheduling points taken before sync/atomic operations of the code under test
+	Goscheds       int // runtime.Gosched calls of the code under test
+	LibRandStreams int // 1 if the code under test drew from math/rand's package-level functions
+	Sig            uint64
+	SimNanos       int64
 }
 
 // Sim is one simulated run.
@@ -171,6 +175,7 @@ type Sim struct {
 	objs   int
 	epoch  uint64
 
+	lib          *Rand // stream behind math/rand's package-level functions in instrumented code
 	cur          *Task
 	start        time.Time
 	lastProgress time.Time
@@ -334,6 +339,9 @@ func (s *Sim) park(t *Task, kind OpKind, obj Waitable) {
 		return // a reaped task is unwinding through its deferred calls: no more scheduling points
 	}
 	raceDisable()
+	if !t.inGosched {
+		t.spin = 0
+	}
 	t.op = kind
 	t.obj = obj
 	t.state = stParked
@@ -449,6 +457,25 @@ func Yield() {
 	s.park(t, OpPlain, nil)
 }
 
+var libFallback = NewRand(0x5eed)
+
+// LibUint64 serves the package-level functions of math/rand in instrumented code (simrand): a
+// stream of the current run, split off the run's choice source at first use; outside a run a
+// fixed process-wide stream.
+//
+//go:norace
+func LibUint64() uint64 {
+	s := cur()
+	if s == nil {
+		return libFallback.Uint64()
+	}
+	if s.lib == nil {
+		s.lib = NewRand(s.rng.Uint64() ^ 0x6c62272e07bb0142)
+		s.St.LibRandStreams++
+	}
+	return s.lib.Uint64()
+}
+
 // AtomicYield is the scheduling point the simatomic shim takes before every atomic operation.
 //
 //go:norace
@@ -459,6 +486,40 @@ func AtomicYield() {
 	}
 	s.St.AtomicOps++
 	s.park(t, OpPlain, nil)
+}
+
+// Gosched is what an instrumented runtime.Gosched calls. It is a scheduling point; and because
+// simulated time stands still while any task is runnable, a task that spins on the clock
+// ("for time.Now().Before(deadline) { runtime.Gosched() }") would spin for ever: from the fourth
+// consecutive Gosched on, the call also lets simulated time pass (1 us, doubling up to ~1 ms),
+// which is what a spinning goroutine experiences on a real machine.
+func Gosched() {
+	s, t := Current()
+	if t == nil {
+		runtime.Gosched()
+		return
+	}
+	n := goschedSpin(s, t, true)
+	if n > 3 {
+		sh := n - 4
+		if sh > 10 {
+			sh = 10
+		}
+		Sleep(time.Microsecond << uint(sh))
+	} else {
+		Yield()
+	}
+	goschedSpin(s, t, false)
+}
+
+//go:norace
+func goschedSpin(s *Sim, t *Task, enter bool) int {
+	t.inGosched = enter
+	if enter {
+		t.spin++
+		s.St.Goscheds++
+	}
+	return t.spin
 }
 
 // PreChan / PostChan bracket channel operations in instrumented code.
